@@ -113,3 +113,143 @@ theorem inv_crash_atomic {fs : Fs} {allowed : List Manifest} {reg : Nat → Opti
     rw [himg, hc', hd]
     simp [Piece.full, hreg m hmem, hall]
 end SL.Fs
+
+/-!
+## Executable part: storage operations, decidable monitors, crash-image enumeration
+-/
+namespace SL.Fs
+
+/-- one primitive of the storage layer, as recorded by hook H1 (file operations are resolved
+through the *current* directory entry of the name, as the code re-opens files by path) -/
+inductive FsOp where
+  | create (n : Name)                 -- `File::create`: new inode, or truncate the existing one
+  | write (n : Name) (p : Piece)
+  | setLen (n : Name) (len : Nat)
+  | fsync (n : Name)
+  | rename (a b : Name)
+  | unlink (n : Name)
+  | fsyncDir
+deriving DecidableEq, Repr
+
+def Fs.cur (fs : Fs) (n : Name) : Option InodeId := ((fs.hist n).getLast?).join
+
+def Fs.setHist (fs : Fs) (n : Name) (h : List (Option InodeId)) : Fs :=
+  if fs.dir.any (fun e => e.1 == n) then
+    { fs with dir := fs.dir.map fun e => if e.1 == n then (n, h) else e }
+  else { fs with dir := fs.dir ++ [(n, h)] }
+
+def Fs.modInode (fs : Fs) (i : InodeId) (f : Inode → Inode) : Fs :=
+  { fs with inodes := fs.inodes.zipIdx.map fun (ino, k) => if k == i then f ino else ino }
+
+def applyAll (c : Content) (ops : List DataOp) : Content := ops.foldl applyOp c
+
+def run (fs : Fs) : FsOp → Fs
+  | .create n =>
+    match fs.cur n with
+    | some i => fs.modInode i fun ino => { ino with pending := ino.pending ++ [.setLen 0] }
+    | none =>
+      let i := fs.inodes.length
+      ({ fs with inodes := fs.inodes ++ [({ durable := [], pending := [] } : Inode)] }).setHist n (fs.hist n ++ [some i])
+  | .write n p =>
+    match fs.cur n with
+    | some i => fs.modInode i fun ino => { ino with pending := ino.pending ++ [.write p] }
+    | none => fs
+  | .setLen n len =>
+    match fs.cur n with
+    | some i => fs.modInode i fun ino => { ino with pending := ino.pending ++ [.setLen len] }
+    | none => fs
+  | .fsync n =>
+    match fs.cur n with
+    | some i => fs.modInode i fun ino => { durable := applyAll ino.durable ino.pending, pending := [] }
+    | none => fs
+  | .rename a b =>
+    match fs.cur a with
+    | some i => (fs.setHist b (fs.hist b ++ [some i])).setHist a (fs.hist a ++ [none])
+    | none => fs
+  | .unlink n => fs.setHist n (fs.hist n ++ [none])
+  | .fsyncDir => { fs with dir := fs.dir.map fun e => (e.1, [(e.2.getLast?).join]) }
+
+def runAll (fs : Fs) (ops : List FsOp) : Fs := ops.foldl run fs
+
+def Fs.empty : Fs := ⟨[], []⟩
+
+/-! ### decidable monitors -/
+
+def settledFileB (fs : Fs) (n : Name) (c : Content) : Bool :=
+  match fs.hist n with
+  | [some j] => decide ((fs.inode j).durable = c) && (fs.inode j).pending.isEmpty
+  | _ => false
+
+def manifestOkB (fs : Fs) (allowed : List Manifest) : Option InodeId → Bool
+  | none => false
+  | some i =>
+    (fs.inode i).pending.isEmpty &&
+      allowed.any fun m =>
+        decide ((fs.inode i).durable = [Piece.full m.chunk m.size]) &&
+          m.files.all fun nc => settledFileB fs nc.1 nc.2
+
+/-- the publication invariant, executable: evaluated by the driver on every prefix state of a
+storage trace recorded from the real code -/
+def publishInvB (fs : Fs) (allowed : List Manifest) : Bool :=
+  (fs.hist "MANIFEST").all (manifestOkB fs allowed)
+
+/-- between calls: the manifest entry itself is durable and is the manifest `m` -/
+def settledB (fs : Fs) (m : Manifest) : Bool :=
+  (fs.hist "MANIFEST").length == 1 && publishInvB fs [m]
+
+theorem settledFileB_sound {fs : Fs} {n : Name} {c : Content} (h : settledFileB fs n c = true) :
+    settledFile fs n c := by
+  unfold settledFileB at h
+  split at h
+  · rename_i j hj
+    simp only [Bool.and_eq_true, decide_eq_true_eq, List.isEmpty_iff] at h
+    exact ⟨j, hj, h.1, h.2⟩
+  · simp at h
+
+theorem manifestOkB_sound {fs : Fs} {allowed : List Manifest} {v : Option InodeId}
+    (h : manifestOkB fs allowed v = true) : manifestOk fs allowed v := by
+  cases v with
+  | none => simp [manifestOkB] at h
+  | some i =>
+    simp only [manifestOkB, Bool.and_eq_true, List.isEmpty_iff, List.any_eq_true,
+      decide_eq_true_eq, List.all_eq_true] at h
+    obtain ⟨hp, m, hm, hd, hf⟩ := h
+    exact ⟨hp, m, hm, hd, fun nc hnc => settledFileB_sound (hf nc hnc)⟩
+
+theorem publishInvB_sound {fs : Fs} {allowed : List Manifest} (h : publishInvB fs allowed = true) :
+    PublishInv fs allowed := by
+  unfold publishInvB at h
+  rw [List.all_eq_true] at h
+  exact fun v hv => manifestOkB_sound (h v hv)
+
+/-! ### enumeration of crash images (to drive the real code) -/
+
+/-- contents an inode may have after a crash: durable, then each prefix of the pending
+operations; a pending write may additionally be torn at the byte offsets listed by `tears` -/
+def inodeCrashes (tears : Nat → List Nat) (ino : Inode) : List Content :=
+  (List.range (ino.pending.length + 1)).flatMap fun j =>
+    let base := applyAll ino.durable (ino.pending.take j)
+    base ::
+      (match ino.pending[j]? with
+       | some (.write p) => ((tears p.total).filter (· < p.total)).map fun k => base ++ [{ p with kept := k }]
+       | _ => [])
+
+theorem mem_inodeCrashes_sound (tears : Nat → List Nat) (ino : Inode) (c : Content)
+    (h : c ∈ inodeCrashes tears ino) : InodeCrash ino c := by
+  simp only [inodeCrashes, List.mem_flatMap, List.mem_range] at h
+  obtain ⟨j, hj, hc⟩ := h
+  refine ⟨j, by omega, ?_⟩
+  rcases List.mem_cons.mp hc with rfl | hc
+  · exact Or.inl rfl
+  · right
+    cases hp : ino.pending[j]? with
+    | none => simp [hp] at hc
+    | some op =>
+      cases op with
+      | setLen n => simp [hp] at hc
+      | write p =>
+        simp only [hp, List.mem_map, List.mem_filter, decide_eq_true_eq] at hc
+        obtain ⟨k, ⟨_, hk⟩, rfl⟩ := hc
+        exact ⟨p, k, rfl, hk, rfl⟩
+
+end SL.Fs
